@@ -22,24 +22,35 @@ func main() {
 			iters = v
 		}
 	}
-	sh := bodies.NewShared()
-	// more shared graphics: the testdata files
-	for i, f := range gen.Corpus() {
-		if i >= 10 {
-			break
+	mk := func() *bodies.Shared {
+		sh := bodies.NewShared()
+		// more shared graphics: the testdata files
+		for i, f := range gen.Corpus() {
+			if i >= 10 {
+				break
+			}
+			sh.Graphics = append(sh.Graphics, f.Data)
 		}
-		sh.Graphics = append(sh.Graphics, f.Data)
+		return sh
 	}
+	// the expected (solo) results come from a separate instance of the shared data, so
+	// that option values and inputs of the concurrent phase are untouched before it starts
+	soloSh := mk()
+	sh := mk()
+	first := sh
 	ng := len(sh.Graphics)
 	solo := map[string]string{}
 	for bi, b := range bodies.Bodies {
 		for g := 0; g < ng; g++ {
-			solo[fmt.Sprint(bi, g)] = b.Run(sh, g)
+			solo[fmt.Sprint(bi, g)] = b.Run(soloSh, g)
 		}
 	}
 	before := sh.Hash()
 	total := 0
 	for it := 0; it < iters; it++ {
+		// a fresh instance of the shared data every round: first-use windows (lazily initialised
+		// state behind option values or inputs) are raced again each time
+		sh = mk()
 		var wg sync.WaitGroup
 		start := make(chan struct{})
 		bad := make([]string, 16)
@@ -49,8 +60,12 @@ func main() {
 				defer wg.Done()
 				<-start
 				for k := 0; k < 6; k++ {
-					bi := (t + k + it) % len(bodies.Bodies)
+					// k == 0: every goroutine starts with the same body (maximal collision at first use)
+					bi := (k*(t+1) + it) % len(bodies.Bodies)
 					g := (t*7 + k*3 + it) % ng
+					if k == 0 {
+						g = it % ng
+					}
 					if r := bodies.Bodies[bi].Run(sh, g); r != solo[fmt.Sprint(bi, g)] {
 						bad[t] = fmt.Sprintf("body %s graphic %d", bodies.Bodies[bi].Name, g)
 					}
@@ -67,7 +82,7 @@ func main() {
 			}
 		}
 	}
-	if sh.Hash() != before {
+	if sh.Hash() != before || first.Hash() != before {
 		fmt.Println("RESULT-MISMATCH shared inputs were modified")
 		os.Exit(1)
 	}
